@@ -45,6 +45,8 @@ type c05Spec struct {
 	// ReportChan: an error reporting channel is installed (SetErrorReportingChannel) that
 	// nobody reads from
 	ReportChan bool `json:"report_chan,omitempty"`
+	// FailureFn: see c05FailureFnCase
+	FailureFn  bool `json:"failure_fn,omitempty"`
 	GoMaxProcs int  `json:"gomaxprocs,omitempty"` // the child runs with GOMAXPROCS=<n>
 	// FailStart: modules (module management on) that are not enabled at Start. Afterwards
 	// they are enabled; the first ManageModules pass runs their start routine, which
@@ -165,6 +167,9 @@ type c05H struct {
 	phase  string
 	preTsk map[string]*modules.Task // P4: tasks created while the module was online
 
+	failBlock   atomic.Bool // the failure-update function blocks from now on
+	failRelease chan struct{}
+
 	notifyOpen     atomic.Int32 // change notifications that are being handled
 	notifyDone     atomic.Int32 // ... that have been handled
 	notifyExpected atomic.Int32 // ... that the passes so far have issued (at least)
@@ -241,6 +246,55 @@ func (h *c05H) write(hung string) {
 // - if the next pass stops that very module - the stop for that worker: a deadlock of the
 // documented usage itself that only the stop timeout resolves (reported as a diagnostic,
 // not part of this property: that worker does not return within the stop timeout).
+// shutdownWithBlockedFailureFn: every started module gets a warning; then the failure-update
+// function starts to block and Shutdown is called. If Shutdown has not returned two
+// seconds after the stop routine and all items of the first module to stop had returned,
+// the goroutine dump is searched for the stopper sitting in Resolve -> RunWorker -> the
+// failure-update function: only the harness could unblock it. That is recorded as a
+// "stuck" event; then the function is released so that the child can finish.
+func (h *c05H) shutdownWithBlockedFailureFn() {
+	for _, ms := range h.spec.Mods {
+		h.mods[ms.Name].Warning("harness:warning", "harness warning", "set before the stop")
+	}
+	h.failBlock.Store(true)
+	ret := make(chan struct{})
+	go func() { _ = h.driver("Shutdown", modules.Shutdown); close(ret) }()
+	released := false
+	for t0 := time.Now(); ; {
+		select {
+		case <-ret:
+			if !released {
+				close(h.failRelease)
+			}
+			return
+		case <-time.After(200 * time.Millisecond):
+		}
+		if released || time.Since(t0) < 2*time.Second {
+			if time.Since(t0) > 60*time.Second {
+				h.note("Shutdown did not return within 60s")
+				return
+			}
+			continue
+		}
+		buf := make([]byte, 4<<20)
+		buf = buf[:runtime.Stack(buf, true)]
+		for _, g := range strings.Split(string(buf), "\n\n") {
+			if strings.Contains(g, "modules.(*Module).stopAllTasks") && strings.Contains(g, "modules.(*Module).Resolve") && strings.Contains(g, "shutdownWithBlockedFailureFn") == false && strings.Contains(g, "c05Child.func") == false {
+				mod := ""
+				for _, ms := range h.spec.Mods {
+					if h.mods[ms.Name].Status() == modules.StatusOffline && h.lat.fired("stopfn.end|"+ms.Name) {
+						mod = ms.Name
+					}
+				}
+				h.log.Rec("stuck", mod, "stopAllTasks>Resolve>failure-update function", nil)
+				break
+			}
+		}
+		close(h.failRelease)
+		released = true
+	}
+}
+
 func (h *c05H) waitNotifications() {
 	for dl := time.Now().Add(10 * time.Second); time.Now().Before(dl); {
 		if h.notifyDone.Load() >= h.notifyExpected.Load() && h.notifyOpen.Load() == 0 {
@@ -295,6 +349,14 @@ func (h *c05H) run() {
 	modules.SetStdErrReporting(false)
 	if sp.ReportChan {
 		modules.SetErrorReportingChannel(make(chan *modules.ModuleError))
+	}
+	if sp.FailureFn {
+		h.failRelease = make(chan struct{})
+		modules.SetFailureUpdateNotifyFunc(func(uint8, string, string, string) {
+			if h.failBlock.Load() {
+				<-h.failRelease
+			}
+		})
 	}
 
 	for _, ms := range sp.Mods {
@@ -403,7 +465,11 @@ func (h *c05H) run() {
 		}
 	}
 	h.setPhase("shutdown")
-	_ = h.driver("Shutdown", modules.Shutdown)
+	if sp.FailureFn {
+		h.shutdownWithBlockedFailureFn()
+	} else {
+		_ = h.driver("Shutdown", modules.Shutdown)
+	}
 	for _, ms := range sp.Mods {
 		h.log.Rec("status-after-shutdown", ms.Name, "", map[string]any{"status": int(h.mods[ms.Name].Status())})
 	}
